@@ -14,17 +14,34 @@ PROP = {
                    "others still wait for more confirmations; oracle conf_block_details checks on every Confirmed that a "
                    "client that asked for the block gets the reference chain's block at the notified height of the active "
                    "branch (hash = BlockHash, transaction at TxIndex, same transaction list) and that a client that did "
-                   "not ask gets none (historical rescans are answered with the block attached, as the real backends do)."),
-    "level_note": ("Sampled histories over a universe of <=3 watched scripts / <=3 watched outpoints and <=14 "
-                   "transactions; reorg safety limit in {3,6,144}. Not generated: address reuse, witness-less spenders, "
-                   "slow consumers, a rescan result that is already stale when delivered, reorgs while the node is down."),
+                   "not ask gets none (historical rescans are answered with the block attached, as the real backends do). "
+                   "One transaction can satisfy SEVERAL DIFFERENT requests: batch transactions pay 2-4 different watched "
+                   "scripts (unwatched outputs before / between / after, PRNG output order) and sweep transactions spend "
+                   "2-4 different watched outpoints (own witness per input, unwatched inputs in between), taken from the "
+                   "initial universe or created mid-history with fresh scripts/outpoints; batches of registrations put "
+                   "txid+script, script-only, outpoint and script-only-spend requests of different clients / numConfs on "
+                   "different outputs (inputs) of one such transaction before or after its inclusion, and the backend then "
+                   "tries to mine it ('registered, then broadcast'); reorgs replace it by single-output members or by "
+                   "another batch over a subset. A request is satisfied by the transaction that carries its script at any "
+                   "output index (its outpoint at any input index); the same per-client oracles apply, and counters prove "
+                   "that Confirmed/Spend was delivered for requests met at a LATER output (input) than another matched "
+                   "request of the same transaction handed to ConnectTip."),
+    "level_note": ("Sampled histories over an initial universe of <=4 watched scripts / <=4 watched outpoints and <=22 "
+                   "transactions (single-group members, conf+spend combos, batch transactions over 2-4 scripts, sweeps over "
+                   "2-4 outpoints), extended mid-history by up to 3 fresh batch/sweep transactions (2-4 new groups each, "
+                   "plus replacements); three mining styles (uniform / multi-request transactions favoured sometimes / "
+                   "always with slow single-group members); reorg safety limit in {3,6,144}. Not generated: address reuse "
+                   "(the same watched script paid twice, also not by two outputs of one transaction), witness-less "
+                   "spenders, slow consumers, a rescan result that is already stale when delivered, reorgs while the node "
+                   "is down."),
     "design_ref": "DESIGN.md §3 C14",
     "rule": ("A history is non-trivial when at least one Confirmed/Spend was delivered and at least one block was "
              "disconnected; distinct = distinct (safety limit, max reorg depth bucket, #Confirmed, #Spend, "
              "#NegativeConf, #Reorg, #historical dispatches (bucketed), #restarts) signatures."),
     "assumptions": [
         "clients are prompt consumers (drain every channel after every backend step)",
-        "watched scripts/outpoints are unique (no address reuse); every spender of a watched output carries its witness",
+        "watched scripts/outpoints are unique (no address reuse; several DIFFERENT watched scripts/outpoints in one "
+        "transaction are generated); every spender of a watched output carries its witness",
         "height hints supplied by callers are valid (<= true inclusion height when included)",
         "historical rescans are served from the chain as of delivery time and need the whole requested range to exist",
         "reorg depth <= reorg safety limit measured from the highest tip ever reached; no reorg while the notifier is down",
@@ -45,8 +62,19 @@ PROP = {
                           "histories_with_limit_depth_reorg": 520,
                           "oracle_conf_block_details_evals": 10000, "oracle_conf_block_requested_evals": 5000,
                           "oracle_conf_block_unrequested_evals": 5000, "conf_block_mixed_option_deliveries": 5300,
-                          "conf_block_requested_after_noblock_cached_registration": 530,
-                          "conf_block_requested_from_rescan": 2500},
+                          "conf_block_requested_after_noblock_cached_registration": 300,
+                          "conf_block_requested_from_rescan": 2500,
+                          # one transaction satisfying several different requests (handed to ConnectTip with
+                          # live requests on >= 2 different outputs / inputs) and deliveries / completeness
+                          # evaluations for the requests met at a later output (input) than another one
+                          "multi_request_txs": 1400, "multi_request_txs_mixed_kinds": 850,
+                          "multi_request_txs_3plus": 500,
+                          "multi_outpoint_spenders": 1300, "multi_outpoint_spenders_mixed_kinds": 800,
+                          "multi_outpoint_spenders_3plus": 450,
+                          "conf_delivered_later_requested_output": 2400,
+                          "spend_delivered_later_requested_input": 2600,
+                          "oracle_conf_complete_later_output_evals": 27000,
+                          "oracle_spend_complete_later_input_evals": 28000},
                 "thorough": {"cases": 100000, "oracle_conf_sound_evals": 320000, "oracle_spend_sound_evals": 450000,
                              "oracle_conf_complete_evals": 4500000, "oracle_spend_complete_evals": 6000000,
                              "oracle_hint_evals": 9500000, "negative_conf_events": 37000,
@@ -54,7 +82,13 @@ PROP = {
                              "histories_with_limit_depth_reorg": 17000,
                              "oracle_conf_block_details_evals": 320000, "oracle_conf_block_requested_evals": 150000,
                              "oracle_conf_block_unrequested_evals": 150000,
-                             "conf_block_mixed_option_deliveries": 160000},
+                             "conf_block_mixed_option_deliveries": 150000,
+                             "multi_request_txs": 47000, "multi_request_txs_mixed_kinds": 29000,
+                             "multi_outpoint_spenders": 45000, "multi_outpoint_spenders_mixed_kinds": 27000,
+                             "conf_delivered_later_requested_output": 80000,
+                             "spend_delivered_later_requested_input": 90000,
+                             "oracle_conf_complete_later_output_evals": 900000,
+                             "oracle_spend_complete_later_input_evals": 1000000},
             },
         },
         {
@@ -69,11 +103,17 @@ PROP = {
                           "oracle_conf_sound_evals": 300, "oracle_spend_sound_evals": 450,
                           "oracle_conf_complete_evals": 2400, "oracle_hint_evals": 4500,
                           "oracle_conf_block_details_evals": 280, "oracle_conf_block_requested_evals": 130,
-                          "conf_block_mixed_option_deliveries": 160},
+                          "conf_block_mixed_option_deliveries": 160,
+                          "multi_request_txs": 30, "multi_outpoint_spenders": 30,
+                          "conf_delivered_later_requested_output": 55,
+                          "spend_delivered_later_requested_input": 60},
                 "thorough": {"cases": 6000, "concurrent_connects": 66000, "concurrent_client_ops": 96000,
                              "oracle_conf_sound_evals": 22000, "oracle_spend_sound_evals": 33000,
                              "oracle_conf_complete_evals": 180000, "oracle_hint_evals": 330000,
-                             "oracle_conf_block_details_evals": 22000, "oracle_conf_block_requested_evals": 9500},
+                             "oracle_conf_block_details_evals": 22000, "oracle_conf_block_requested_evals": 9500,
+                             "multi_request_txs": 2700, "multi_outpoint_spenders": 2900,
+                             "conf_delivered_later_requested_output": 5000,
+                             "spend_delivered_later_requested_input": 5900},
             },
         },
     ],
